@@ -1037,7 +1037,14 @@ class World:
                 continue
             if self.locatable(F, B) and self.contour_recomputable(B["target"]):
                 return True
-        return not self.cands(F, "contour", must=True) and bool(self.cands(F, "mask", must=False))
+        if not self.cands(F, "contour", must=True) and bool(self.cands(F, "mask", must=False)):
+            return True
+        # a target somewhere below was deleted or replaced by another measurement: whichever member of the chain lost
+        # its route to the stored contour computes it from a mask (legitimate data that the model does not describe)
+        clo = self.closure(F)
+        if any(X.fs in ("target_replaced", "target_deleted", "indirect") for X in clo) and any("mask" in X.stored or self.cands(X, "mask", must=False) for X in clo):
+            return True
+        return False
 
     def check_file(self, F, why=None):
         """read every feature of the universe completely and compare with the model"""
